@@ -11,8 +11,8 @@ META = {
     "engine": "qsym-algebra + numeric tie",
     "technique": "Coq: reflective checker solves_schrodinger (formal time derivative of a Laurent-polynomial propagator equals -i H U as normal forms, U(0)=U0) with soundness theorem into Coquelicot derivatives for ALL times; per-run vm_compute obligations certify closed-form propagators of random commuting / Pythagorean Pauli Hamiltonians and piecewise-constant schedules; list model of parameter routing with theorems; numeric tie of qp.evolve / ParametrizedEvolution / default.qubit / pulse gradients against the certified closed forms and an independent integrator",
     "design_ref": "DESIGN.md §3 C63",
-    "text": "Static theorems (Num/PulseProofs.v, restated in Props/C63.v): solves_schrodinger_sound - if the checker accepts (H, U, U0) with time variable j then for every real valuation of the other variables and every real time x each entry of U has derivative (Cderive, Alg/Deriv.v) equal to the entry of -i*H*U at x, and U at time 0 is U0 (entrywise equality of complex matrices); piecewise_compose - an accepted schedule [(H_1,U_1);...;(H_n,U_n)] (window k has its own duration variable theta_k) gives for every k that V_k = U_k V_{k-1} solves window k's equation in theta_k with initial value V_{k-1}, V_0 = I, for all durations; param_routing_spec (add / scale / reorder over concatenated drive blocks, for all lists). Per run (tie X): random Hamiltonians sum c_k P_k on 1-3 wires, c_k rational, (i) mutually commuting words, U = prod (cos(c_k t) - i sin(c_k t) P_k), (ii) mutually anticommuting words with sum c_k^2 = r^2, U = cos(rt) - i sin(rt) H/r, and piecewise-constant schedules of those: obligations `solves_schrodinger ... = true` / `sched_ok ... = true` closed by vm_compute. Tie B (numeric, 1e-6): the real qp.evolve(H)(params,t) / ParametrizedEvolution matrices (atol=rtol=1e-10) are compared with the certified closed forms evaluated in floating point (constant, qp.pulse.constant, qp.pulse.pwc coefficients, full and partial windows), with an independent integrator (scipy DOP853 rtol 1e-12 on the matrix ODE, restarted at every discontinuity) for random non-commuting Hamiltonians with smooth / pwc / pwc_from_function / rect coefficients, windows [t0,t1], scalar t, time lists with return_intermediate and complementary, dense and sparse paths, wire orders, all construction routes (qp.dot, operator arithmetic, H1+H2, scalar*H, constructor), hardware Hamiltonians (drive, rydberg_drive, transmon_drive, sums) against their documented formulas; constant Hamiltonians vs scipy.linalg.expm; qp.evolve(op, x) = exp(-i x op); H(params,t) operator matrices; default.qubit execution through apply_operation (matrix path and state-evolution path, return_intermediate, jit) against the reference applied to an independently simulated state. Gradients: jax.jacobian through the evolution (backprop), pulse_odegen and stoch_pulse_grad (fixed sampler seed, broadcasting and non-broadcasting path) vs 5-point central finite differences of the independent integrator; stoch_pulse_grad within 6 sigma of its Monte-Carlo error, sigma computed independently from the integrand on a time grid. Parameter routing (tie K, exact integers): the Gallina model of ParametrizedHamiltonian arithmetic and of the two reorder functions is compared inside Coq with the real objects called with integer-coded parameters and recording coefficient functions (H(params,t) path and the ParametrizedHamiltonianPytree path used by the ODE right-hand side).",
-    "note": "WEAK tie: the comparison between PennyLane's propagator and the reference is numeric, limited by the jax odeint tolerance (requested 1e-10, compared at 1e-6; genuine defects - sign, window, routing, bin index - are O(1e-2..1)). Uniqueness of solutions of the linear ODE (Picard-Lindeloef) is NOT proved in Coq: the theorems say the closed form solves the equation with the right initial value. Closed forms are certified only for the Hamiltonians sampled in a run (each obligation is universal in time, not in the Hamiltonian); smooth time-dependent coefficients have no exact model (independent integrator only). Gradient comparisons are numeric; stoch_pulse_grad is statistical (6 sigma, fixed sampler seed). jax odeint, jax autodiff, scipy integrate/expm and the float evaluation of the certified polynomials are trusted oracles. HardwareHamiltonian * scalar (which silently returns a plain ParametrizedHamiltonian without reorder function) is outside the routing model.",
+    "text": "Static theorems (Num/PulseProofs.v, restated in Props/C63.v): solves_schrodinger_sound - if the checker accepts (H, U, U0) with time variable j then for every real valuation of the other variables and every real time x each entry of U has derivative (Cderive, Alg/Deriv.v) equal to the entry of -i*H*U at x, and U at time 0 is U0 (entrywise equality of complex matrices); piecewise_compose - an accepted schedule [(H_1,U_1);...;(H_n,U_n)] (window k has its own duration variable theta_k) gives for every k that V_k = U_k V_{k-1} solves window k's equation in theta_k with initial value V_{k-1}, V_0 = I, for all durations; param_routing_spec (add / scale / reorder over concatenated drive blocks, for all lists). Per run (tie X): random Hamiltonians sum c_k P_k on 1-3 wires, c_k rational, (i) mutually commuting words, U = prod (cos(c_k t) - i sin(c_k t) P_k), (ii) mutually anticommuting words with sum c_k^2 = r^2, U = cos(rt) - i sin(rt) H/r, and piecewise-constant schedules of those: obligations `solves_schrodinger ... = true` / `sched_ok ... = true` closed by vm_compute. Tie B (numeric, 1e-6): the real qp.evolve(H)(params,t) / ParametrizedEvolution matrices (atol=rtol=1e-12) are compared with the certified closed forms evaluated in floating point (constant, qp.pulse.constant, qp.pulse.pwc coefficients, full and partial windows), with an independent integrator (scipy DOP853 rtol 1e-12 on the matrix ODE, restarted at every discontinuity) for random non-commuting Hamiltonians with smooth / pwc / pwc_from_function / rect coefficients, windows [t0,t1], scalar t, time lists with return_intermediate and complementary, dense and sparse paths, wire orders, all construction routes (qp.dot, operator arithmetic, H1+H2, scalar*H, constructor), hardware Hamiltonians (drive, rydberg_drive, transmon_drive, sums) against their documented formulas; constant Hamiltonians vs scipy.linalg.expm; qp.evolve(op, x) = exp(-i x op); H(params,t) operator matrices; default.qubit execution through apply_operation (matrix path and state-evolution path, return_intermediate, jit) against the reference applied to an independently simulated state. Gradients: jax.jacobian through the evolution (backprop), pulse_odegen and stoch_pulse_grad (fixed sampler seed, broadcasting and non-broadcasting path) vs 5-point central finite differences of the independent integrator; stoch_pulse_grad within 6 sigma of its Monte-Carlo error, sigma computed independently from the integrand on a time grid. Parameter routing (tie K, exact integers): the Gallina model of ParametrizedHamiltonian arithmetic and of the two reorder functions is compared inside Coq with the real objects called with integer-coded parameters and recording coefficient functions (H(params,t) path and the ParametrizedHamiltonianPytree path used by the ODE right-hand side).",
+    "note": "WEAK tie: the comparison between PennyLane's propagator and the reference is numeric, limited by the jax odeint tolerance (requested 1e-12, observed agreement ~1e-9, compared at 1e-6; genuine defects - sign, window, routing, bin index - are O(1e-2..1)). Uniqueness of solutions of the linear ODE (Picard-Lindeloef) is NOT proved in Coq: the theorems say the closed form solves the equation with the right initial value. Closed forms are certified only for the Hamiltonians sampled in a run (each obligation is universal in time, not in the Hamiltonian); smooth time-dependent coefficients have no exact model (independent integrator only). Gradient comparisons are numeric; stoch_pulse_grad is statistical (6 sigma, fixed sampler seed). jax odeint, jax autodiff, scipy integrate/expm and the float evaluation of the certified polynomials are trusted oracles. HardwareHamiltonian * scalar (which silently returns a plain ParametrizedHamiltonian without reorder function) is outside the routing model.",
     "assumptions": ["uniqueness of solutions of dU/dt = -i H(t) U (standard, not formalised)",
                     "Hamiltonians are Hermitian and coefficient functions are real-valued (documented requirement)"],
     "trusted": ["scipy.integrate.solve_ivp / scipy.linalg.expm (reference integrator)", "floating-point evaluation of certified Laurent polynomials in harness/props/c63.py",
@@ -210,14 +210,6 @@ def gen_exact_ham(rng, n, kind, nterms=None):
         return gen_exact_ham(rng, n, "comm")
     trip = rng.choice([p for p in PYTH if len(p) == m])
     return {"n": n, "words": words, "num": list(trip), "kind": "pyth"}
-
-
-def exact_H(h):
-    d = 1 << h["n"]
-    H = [[LP() for _ in range(d)] for _ in range(d)]
-    for w, c in zip(h["words"], h["num"]):
-        H = m_add(H, m_scale(lp_const(0), word_mat_lp(w)))  # keeps shape
-    return H
 
 
 def exact_HU(h, D, var):
@@ -968,7 +960,7 @@ def reference_grad(case, grid=48):
 # ---- routing cases (exact) ---------------------------------------------------------------------------------------------------
 def gen_route(rng, fid):
     """hardware-Hamiltonian expression; returns (expression for the driver, Gallina hexp, number of parameters expected by the model or None)"""
-    fam = rng.choice(["ryd", "trans", "drive", "ryd", "trans"])
+    fam0 = rng.choice(["ryd", "trans", "drive", "ryd", "trans"])
 
     def a():
         if rng.random() < 0.6:
@@ -980,6 +972,7 @@ def gen_route(rng, fid):
         r = rng.random()
         if r < 0.62:
             ws = rng.choice([[0], [1], [0, 1]])
+            fam = fam0 if rng.random() < 0.93 else rng.choice(["ryd", "trans", "drive"])      # rarely mix families (must raise)
             if fam == "ryd":
                 return {"k": "ryd", "amp": a(), "phase": a(), "det": a(), "wires": ws}
             if fam == "trans":
@@ -990,12 +983,10 @@ def gen_route(rng, fid):
             return {"k": "fun", "f": fid[0], "op": rng.randrange(2)}
         if r < 0.9:
             return {"k": "fix", "c": rng.randint(1, 5), "op": rng.randrange(2)}
-        return {"k": "rydint"} if fam != "trans" else {"k": "transint"}
+        return {"k": "rydint"} if fam0 != "trans" else {"k": "transint"}
     e = node()
     for _ in range(rng.randint(0, 3)):
         n2 = node()
-        if n2["k"] in ("rydint", "transint") and json.dumps(e).count("int\"") > 0:
-            continue
         e = {"k": "add", "a": e, "b": n2} if rng.random() < 0.7 else {"k": "add", "a": n2, "b": e}
     return e
 
@@ -1048,14 +1039,20 @@ def g_groups(gs):
 
 
 def gen_plain(rng):
+    ctr = [0]
+
+    def newop():            # distinct operators: Operator.terms() would merge equal ones
+        ctr[0] += 1
+        return ctr[0]
+
     def leaf():
         r = rng.random()
         if r < 0.3:
-            return {"k": "fix", "c": rng.randint(1, 6), "op": rng.randrange(40)}
+            return {"k": "fix", "c": rng.randint(1, 6), "op": newop()}
         if r < 0.6:
-            return {"k": "fun", "op": rng.randrange(40)}
+            return {"k": "fun", "op": newop()}
         n = rng.randint(1, 4)
-        return {"k": "dot", "cs": [None if rng.random() < 0.6 else rng.randint(1, 6) for _ in range(n)], "ops": [rng.randrange(40) for _ in range(n)]}
+        return {"k": "dot", "cs": [None if rng.random() < 0.6 else rng.randint(1, 6) for _ in range(n)], "ops": [newop() for _ in range(n)]}
 
     def tree(d):
         r = rng.random()
@@ -1064,9 +1061,9 @@ def gen_plain(rng):
         if r < 0.6:
             return {"k": "add", "a": tree(d - 1), "b": tree(d - 1)}
         if r < 0.7:
-            return {"k": "opadd", "c": rng.randint(1, 6), "op": rng.randrange(40), "b": tree(d - 1)}
+            return {"k": "opadd", "c": rng.randint(1, 6), "op": newop(), "b": tree(d - 1)}
         if r < 0.8:
-            return {"k": "addop", "a": tree(d - 1), "c": rng.randint(1, 6), "op": rng.randrange(40)}
+            return {"k": "addop", "a": tree(d - 1), "c": rng.randint(1, 6), "op": newop()}
         return {"k": "scale", "c": rng.randint(2, 4), "a": tree(d - 1), "left": rng.random() < 0.5}
     return tree(rng.randint(1, 3))
 
@@ -1125,8 +1122,8 @@ def run(ctx):
     ctx.coq_props()
     rng = ctx.rng
     quick = ctx.tier == "quick"
-    N = dict(exact=4, general=6, evop=4, hcall=4, device=3, hw=3, grad=2, route=40, plain=60, nsplit=24) if quick else \
-        dict(exact=24, general=60, evop=20, hcall=30, device=16, hw=20, grad=10, route=300, plain=400, nsplit=60)
+    N = dict(exact=4, general=6, evop=4, hcall=4, device=3, hw=3, grad=1, route=40, plain=60, nsplit=24) if quick else \
+        dict(exact=16, general=40, evop=20, hcall=30, device=12, hw=12, grad=4, route=300, plain=400, nsplit=48)
 
     # ------------------------------------------------------------------ Part A: certified closed forms (tie X)
     lemmas, exact_cases, cert = [], [], {}
@@ -1198,7 +1195,9 @@ def run(ctx):
     for i in range(N["hw"]):
         cases.append(gen_hw(rng))
     for i in range(N["grad"]):
-        cases.append(gen_grad(rng, N["nsplit"], bcast=(i % 2 == 0)))
+        g = gen_grad(rng, N["nsplit"] if (quick or i % 2 == 0) else 8, bcast=(quick or i % 2 == 0))
+        for which in (["backprop"], ["odegen"], ["stoch"]):      # separate processes: jax compile times dominate
+            cases.append(dict(g, which=which))
     fid = [0]
     route_cases = []
     for i in range(N["route"]):
@@ -1207,8 +1206,8 @@ def run(ctx):
     plain_cases = [{"kind": "plain_route", "e": gen_plain(rng)} for _ in range(N["plain"])]
 
     # ------------------------------------------------------------------ run the implementation (sharded) and Coq obligations concurrently
-    cost = {"grad": 12, "device": 3, "evolve": 1.5, "hw_evolve": 2, "hcall": 0.1, "evolution_op": 0.1}
-    NW = 5
+    cost = {"grad": 40, "device": 3, "evolve": 1.5, "hw_evolve": 2, "hcall": 0.1, "evolution_op": 0.1}
+    NW = 8
     shards = [[] for _ in range(NW)]
     load = [0.0] * NW
     for idx in sorted(range(len(cases)), key=lambda i: -cost.get(cases[i]["kind"], 1)):
@@ -1224,6 +1223,7 @@ def run(ctx):
             return ctx.run_impl("c63_impl.py", {"cases": job[1]}, timeout=3000)["obs"]
         return ctx.coq_obligations("pulse", PULSE_HEADER, lemmas, chunk=3, par=6)
     obs = [None] * len(cases)
+    t_start = time.time()
     with ThreadPoolExecutor(max_workers=NW + 2) as ex:
         fut_coq = ex.submit(do, ("coq",))
         futs = [ex.submit(do, j) for j in jobs]
@@ -1231,6 +1231,7 @@ def run(ctx):
         expected = [expected_of(c, cert.get(i)) for i, c in enumerate(cases)]
         res = [f.result() for f in futs]
         failed = fut_coq.result()
+    ctx.coverage["phase_seconds"] = {"setup_and_generation": round(t_start - ctx.t0, 1), "impl_reference_coq_parallel": round(time.time() - t_start, 1)}
     for (kind, cs, idxs), r in zip(jobs[:-1], res[:-1]):
         for i, o in zip(idxs, r):
             obs[i] = o
@@ -1244,8 +1245,9 @@ def run(ctx):
     worst = 0.0
     for i, (c, o, e) in enumerate(zip(cases, obs, expected)):
         kind = c["kind"] + (":exact" if "exact" in c else ":expm" if c.get("expm") else "")
-        st = stats.setdefault(kind, {"n": 0, "bad": 0})
+        st = stats.setdefault(kind, {"n": 0, "bad": 0, "impl_secs": 0.0})
         st["n"] += 1
+        st["impl_secs"] = round(st["impl_secs"] + o.get("secs", 0.0), 1)
         key = f"tie:{kind}:{sha(strip(c))}"
         if c["kind"] == "grad":
             bad = compare_grad(ctx, c, o, e, key, st)
@@ -1262,8 +1264,7 @@ def run(ctx):
                           what=f"{kind}: result differs from the reference propagator by {d:.3g}")
         else:
             worst = max(worst, d)
-    # default wire order of the evolution operator (H.wires: fixed terms first) where the case relied on it
-    n_route_bad = compare_routes(ctx, route_cases, plain_cases, r_obs, stats)
+    compare_routes(ctx, route_cases, plain_cases, r_obs, stats)
 
     n_eval = len(cases) + len(route_cases) + len(plain_cases)
     ctx.coverage.update({"evaluations": n_eval + len(lemmas), "distinct_nontrivial": len(cases) + len(lemmas),
@@ -1276,9 +1277,17 @@ def run(ctx):
     ctx.sample({"route_case": route_cases[0]})
 
 
+_GRAD_CACHE = {}
+
+
 def expected_of(c, certU):
     k = c["kind"]
     try:
+        if k == "grad":
+            key = sha({a: b for a, b in c.items() if a != "which"})
+            if key not in _GRAD_CACHE:
+                _GRAD_CACHE[key] = reference_grad(c)
+            return _GRAD_CACHE[key]
         if k == "evolve":
             if "exact" in c:
                 return expected_exact(c, certU)
@@ -1320,23 +1329,26 @@ def compare_grad(ctx, c, o, e, key, st):
     T = times_of(c["t"])
     rep = {"fd": e["fd"], "mc_sigma1": e["mc_sigma1"]}
     bad = []
-    if abs(o["value"] - e["value"]) > 1e-6:
+    if "value" in o and abs(o["value"] - e["value"]) > 1e-6:
         bad.append(("value", abs(o["value"] - e["value"])))
     for m in ("backprop", "odegen"):
+        if m not in o:
+            continue
         g = np.array([x for p in o[m] for x in p])
         rep[m] = g.tolist()
         if g.shape != fd.shape or np.max(np.abs(g - fd)) > 1e-5:
             bad.append((m, float(np.max(np.abs(g - fd))) if g.shape == fd.shape else "shape"))
-    g = np.array([x for p in o["stoch"] for x in p])
-    rep["stoch"] = g.tolist()
-    bound = 6.0 * 1.15 * np.array(e["mc_sigma1"]) / math.sqrt(c["nsplit"]) + 1e-5
-    rep["stoch_bound"] = bound.tolist()
-    if g.shape != fd.shape or np.any(np.abs(g - fd) > bound):
-        bad.append(("stoch", (np.abs(g - fd) / bound).max() if g.shape == fd.shape else "shape"))
+    if "stoch" in o:
+        g = np.array([x for p in o["stoch"] for x in p])
+        rep["stoch"] = g.tolist()
+        bound = 6.0 * 1.15 * np.array(e["mc_sigma1"]) / math.sqrt(c["nsplit"]) + 1e-5
+        rep["stoch_bound"] = bound.tolist()
+        if g.shape != fd.shape or np.any(np.abs(g - fd) > bound):
+            bad.append(("stoch", (np.abs(g - fd) / bound).max() if g.shape == fd.shape else "shape"))
+        st.setdefault("stoch_dev_over_bound", []).append(round(float((np.abs(g - fd) / bound).max()), 3) if g.shape == fd.shape else None)
     # harness self-check: the integrand used for sigma integrates to the finite-difference gradient (midpoint rule, loose)
     if np.max(np.abs(np.array(e["mc_integral"]) - fd)) > 0.05 * (1 + np.max(np.abs(fd))):
         ctx.notes.append(f"sigma model self-check deviates for {key}")
-    st.setdefault("stoch_rel", []).append(float((np.abs(g - fd) / bound).max()) if g.shape == fd.shape else None)
     if bad:
         st["bad"] += 1
         ctx.violation(key, {"case": strip, "report": rep, "failed": [[a, str(b)] for a, b in bad]},
@@ -1351,7 +1363,9 @@ def compare_routes(ctx, route_cases, plain_cases, r_obs, stats):
     for c, o in zip(route_cases, r_obs[:len(route_cases)]):
         st["n"] += 1
         if "err" in o:
-            # construction raised (e.g. adding drives of different families is impossible here: one family per case)
+            # construction raised: different reorder functions / two interaction terms / drive + transmon_interaction (model: hden = None)
+            if "TransmonSettings" in o["err"]:
+                st["none_plus_transmonsettings_typeerror"] = st.get("none_plus_transmonsettings_typeerror", 0) + 1
             terms.append(f"(RouteErr {g_hexp(c['e'])})")
             meta.append(c)
             continue
@@ -1362,8 +1376,11 @@ def compare_routes(ctx, route_cases, plain_cases, r_obs, stats):
         calls2 = "None" if o["calls_pytree"] is None else f"(Some {g_calls(o['calls_pytree'])})"
         if o["calls"] is None:
             st["call_errors"] += 1
-        terms.append(f"(RouteObs {g_hexp(c['e'])} {gbool(o['hw'])} {desc} {gz(o['nfixed'])} {reorder} {calls} {calls2})")
+        terms.append(f"(RouteObs {g_hexp(c['e'])} {gnat(c['n'])} {gbool(o['hw'])} {desc} {gz(o['nfixed'])} {reorder} {calls} {calls2})")
         meta.append(c)
+    if st.get("none_plus_transmonsettings_typeerror"):
+        ctx.notes.append("side observation (outside the property): transmon_drive(...) + transmon_interaction(...) raises TypeError (None + TransmonSettings has no __radd__) "
+                         "while transmon_interaction(...) + transmon_drive(...) works; modelled as a construction error")
     bad = ctx.coq_eval_cases("route", header, terms, "check_route") if terms else []
     for i in bad:
         st["bad"] += 1
